@@ -115,6 +115,8 @@ impl Property for C13 {
             s2.into_iter().map(|e| e.delta).collect()
         } else { vec![] };
         let yield_bias = src.below(8);
+        // one transient read error at the flush's first or second store call (its manifest reload)
+        let flush_get_fault: Option<u64> = if concurrent && src.chance(1, 5) { Some(src.below(2)) } else { None };
         let trace = ctx.trace;
         if trace {
             for e in &stream { rep.trace.push(format!("t+{}ms {} -> {} @({},{})", e.wall_ms - t0, e.op, e.delta.value.crdt_type(), e.delta.value.timestamp.time, e.delta.value.timestamp.replica_id.0)); }
@@ -172,6 +174,10 @@ impl Property for C13 {
                 let mut p = match StreamingPersistence::with_clock(Arc::new(st_f.clone()), PREFIX.to_string(), 1, wcfg, clock.clone()).await { Ok(p) => p, Err(e) => return Out { before, after: Err(e.to_string()), compact_ok, flush_ok, removed, input_keys: vec![], cops, fops, order, steps, manifest_before: Some(manifest), setup: Some("persistence".into()) } };
                 for d in &extra2 { let _ = p.push(d.clone()); }
                 let mut compactor = Compactor::with_time_source(Arc::new(st_c.clone()), PREFIX.to_string(), ManifestManager::new(st_c.clone(), PREFIX), ccfg, clock.clone());
+                if let Some(j) = flush_get_fault {
+                    let done = st.inner.lock().unwrap().who_ops.get(&2).copied().unwrap_or(0);
+                    st.set_who_plan([((2u32, done + j), crate::simkit::store::StoreFault::GetError)].into_iter().collect());
+                }
                 st.set_yield(true);
                 let ops0 = st.ops();
                 let c_res = std::cell::RefCell::new(None);
@@ -212,10 +218,16 @@ impl Property for C13 {
             rep.trace.push(format!("compact results {:?}, flush result {:?}, segments removed {:?}", out.compact_ok, out.flush_ok, out.removed));
         }
         let _ = OpKind::Put;
+        for e in store.inner.lock().unwrap().events.iter() { if let Some(f) = e.fault { rep.fault(f.name()); rep.probe("flush_reload_failed_transiently"); } }
         if out.setup.is_some() { rep.evals = 1; return rep; }
         let before = match out.before { Ok(b) => b, Err(e) => { rep.violate("C13/recover-before-failed", e); return rep; } };
+        // the recorded race needs the two operations to be in progress at the same time: their spans of store
+        // calls intersect. A flush that runs entirely before or entirely after the compaction must be safe.
+        let span = |who: u32| out.order.iter().position(|w| *w == who).zip(out.order.iter().rposition(|w| *w == who));
+        let overlapped = concurrent && match (span(1), span(2)) { (Some((c0, c1)), Some((f0, f1))) => f0 < c1 && c0 < f1, _ => false };
+        if concurrent && !overlapped && span(1).is_some() && span(2).is_some() { rep.probe("flush_strictly_beside_compaction"); }
         let after = match out.after { Ok(a) => a, Err(e) => {
-            let key = if concurrent { "C13/concurrent-flush/recovery-fails-after" } else { "C13/recovery-fails-after-compaction" };
+            let key = if overlapped { "C13/concurrent-flush/recovery-fails-after" } else if concurrent { "C13/flush-beside-compaction/recovery-fails-after" } else { "C13/recovery-fails-after-compaction" };
             rep.violate(key, format!("recovery succeeded before compaction but fails after: {}", e)); rep.evals = 1; return rep; } };
         // expected = before (+ the concurrently flushed updates if the flush was confirmed)
         let mut expected = before.clone();
@@ -258,7 +270,6 @@ impl Property for C13 {
             };
             let key;
             let msg;
-            let overlapped = concurrent && out.order.iter().position(|w| *w == 1).zip(out.order.iter().rposition(|w| *w == 1)).map(|(x, y)| out.order[x..=y].iter().any(|w| *w == 2)).unwrap_or(false);
             if overlapped {
                 let lost = out.flush_ok == Some(true) && extra.iter().any(|d| &d.key == k) && before.get(k).map(proj_s) == a.map(proj_s);
                 key = if lost { "C13/concurrent-flush/confirmed-flush-lost" } else { "C13/concurrent-flush/state-changed" };
@@ -271,11 +282,8 @@ impl Property for C13 {
                 key = "C13/tombstone-dropped-older-value-resurfaces";
                 msg = format!("key {}: deleted before compaction, but afterwards recovery returns {} (an older value from a segment or checkpoint outside the compaction input)", k, a_vis.clone().unwrap_or_default());
             } else if concurrent && (out.flush_ok == Some(true)) && extra.iter().any(|d| &d.key == k) && before.get(k).map(proj_s) == a.map(proj_s) {
-                key = "C13/concurrent-flush/confirmed-flush-lost";
-                msg = format!("key {}: a flush that returned Ok while compaction was running is not in the recovered state: expected {} got {}", k, e.map(proj_s).unwrap_or_default(), a.map(proj_s).unwrap_or_default());
-            } else if concurrent && out.order.iter().position(|w| *w == 1).zip(out.order.iter().rposition(|w| *w == 1)).map(|(x, y)| out.order[x..=y].iter().any(|w| *w == 2)).unwrap_or(false) {
-                key = "C13/concurrent-flush/state-changed";
-                msg = format!("key {}: expected {} got {}", k, e.map(proj_s).unwrap_or_default(), a.map(proj_s).unwrap_or_default());
+                key = "C13/flush-beside-compaction/confirmed-flush-lost";
+                msg = format!("key {}: a flush that returned Ok (store calls strictly before or after the compaction's, order {:?}) is not in the recovered state: expected {} got {}", k, out.order, e.map(proj_s).unwrap_or_default(), a.map(proj_s).unwrap_or_default());
             } else if input_deltas.iter().any(|d| &d.key == k && d.value.is_hash()) {
                 key = "C13/state-changed/hash";
                 msg = format!("key {}: before {} after {}", k, e.map(proj_s).unwrap_or_default(), a.map(proj_s).unwrap_or_default());
